@@ -288,6 +288,22 @@ func TestCheck(t *testing.T) {
 	rep.Info["max_deviation_bound_completed"] = bound
 	rep.Assume("fake clock; time is observed at 2 s granularity because net/http's Shutdown polls with a jittered interval",
 		"interleavings at environment-step and vhook-gate granularity")
+	if rq, ok := ev.ReplayRequest(); ok {
+		for _, v := range variants {
+			if v.name == rq["variant"] {
+				o, trace := mc.Replay(ev.Ints(rq["choices"]), func(c *mc.Chooser) mc.Outcome { return runOne(t, v, c) })
+				rep.Add("schedules", 1)
+				rep.Add("states", int64(len(trace)))
+				rep.Add("transitions", int64(len(trace)))
+				rep.Add("traces_validated_against_impl", 1)
+				rep.Sample(map[string]any{"replayed_schedule": trace, "observation": o.Obs})
+				for i, w := range o.Violations {
+					rep.Violate(map[string]any{"kind": o.Sigs[i], "variant": v.name}, rq, "%s", w)
+				}
+			}
+		}
+		return
+	}
 	for _, v := range variants {
 		e := &mc.Explorer{Bound: bound, Shard: shard, Of: of, Deadline: deadline}
 		func() {
